@@ -60,6 +60,7 @@ def blocks(tier, seed):
     for i in range(len(CATALOGUE)):
         out.append({'kind': 'catalogue', 'i': i})
     out.append({'kind': 'period'})
+    out.append({'kind': 'check-lists'})
     return out
 
 
@@ -136,6 +137,8 @@ def run_trace(case, cls=scripted.Scripted, extra_kwargs=None):
         kw.update(min_iter=np.int64(kw['min_iter']), max_iter=np.int32(kw['max_iter']), tol=np.array(kw['tol'], dtype=np.float32), catch_first_error=np.bool_(kw['catch_first_error']))
         t = np.int64(t)
     entry = case.get('entry', 'solve_t')
+    if case.get('ambient'):
+        kw['_ambient'] = case['ambient']
     if entry == 'solve_period':
         res, cause, _ = refsolve.call_outcome(m.solve_period, 1, **kw)
     elif entry == 'solve':
@@ -225,6 +228,9 @@ def run_traces(block, tier, acc, cls=scripted.Scripted, extra_kwargs=None, post=
                 if hist and hist[0] == 'nans' and opts['pre'] == 'finite' and opts['preHook'] == 'ok' and opts['postHook'] == 'ok':
                     # the non-finite value of pass 1 was put there by the pre-solution hook (the starting state, read before the hook, was finite)
                     extras += [dict(pre_nan=True), dict(pre_nan=True, entry='solve')]
+                if 'nanw' in hist and not (opts['errors'] == 'raise' and opts['cfe']):
+                    # the caller's process turns warnings into errors (python -W error, a test runner's setting): the policy is the solver's own
+                    extras += [dict(ambient='error'), dict(ambient='error', entry='solve')]
                 if opts['preHook'] != 'exc' and opts['postHook'] != 'exc' and not (opts['errors'] == 'raise' and opts['cfe']):
                     extras += [dict(benign_warn=True), dict(benign_warn=True, entry='solve_period')]  # ... and changes nothing otherwise
                 for extra in extras:
@@ -245,7 +251,7 @@ def run_traces(block, tier, acc, cls=scripted.Scripted, extra_kwargs=None, post=
                     if extra.get('hook_exc') == 'warn' and want['cause'] == 'exception' and (opts['preHook'] == 'exc' or (opts['postHook'] == 'exc' and want['postRuns'] == 1)):
                         want = dict(want, cause='warning')  # the failure is the hook's own (not an exception of an evaluation pass before it)
                     if want != obs:
-                        acc.violation(trace_key(case, want, obs) + ':' + (extra.get('stacked') or ('numpy-scalars' if extra.get('numpy_opts') else None) or ('benign-hook-warning' if extra.get('benign_warn') else None) or ('pre-hook-writes-nan' if extra.get('pre_nan') else None) or extra.get('entry') or 'hook-' + str(extra['hook_exc'])), case, want, obs,
+                        acc.violation(trace_key(case, want, obs) + ':' + (extra.get('stacked') or ('numpy-scalars' if extra.get('numpy_opts') else None) or ('benign-hook-warning' if extra.get('benign_warn') else None) or ('pre-hook-writes-nan' if extra.get('pre_nan') else None) or ('ambient-warnings-filter' if extra.get('ambient') else None) or extra.get('entry') or 'hook-' + str(extra['hook_exc'])), case, want, obs,
                                       'solve_t disagrees with the documented state machine')
             first = False
         acc.sample({'opts': opts, 'hist': hist, 'expect': {k: s[k] for k in ('result', 'status', 'iters', 'k')}}, limit=3)
@@ -350,6 +356,11 @@ CATALOGUE = [
     'Y = 0.25 * Y[-1] + 0.5 * Z\nZ = 0.5 * Y + X[1]',
     'C = {a} * YD + {b} * H[-1]\nYD = Y - T\nY = C + G\nT = {theta} * Y\nH = H[-1] + YD - C',
     'Y = max(0.5 * Y - X, 0)',
+    # models with nothing to check (no equation assigns anything: every check variable - there is none - has moved by less than tol)
+    '',
+    '```\nself._W[t] = self._W[t] * 0.5 + 1\n```',
+    # a falling variable next to a settled one; two variables that move in opposite directions
+    'Y = 0.5 * Y - X\nZ = 0 * Z + 1',
 ]
 
 _CAT_CLASSES = {}
@@ -359,6 +370,11 @@ def cat_model(i):
     if i not in _CAT_CLASSES:
         _CAT_CLASSES[i] = fsic.build_model(fsic.parse_model(CATALOGUE[i]))
     return _CAT_CLASSES[i]
+
+
+def catalogue_with_equations():
+    """Catalogue entries that have at least one ordinary equation (C08 / C17 trace and wrap variables of the model)."""
+    return [i for i in range(len(CATALOGUE)) if cat_model(i).ENDOGENOUS]
 
 
 def cat_instance(i, dv):
@@ -427,9 +443,68 @@ def run_catalogue(i, acc, tier):
     acc.sample({'kind': 'catalogue', 'script': CATALOGUE[i]}, limit=2)
 
 
+@robust()
+def run_checklist_case(case):
+    """Convergence is judged on the INSTANCE's check list as it is when the period is solved (it may have been edited after
+    construction), and pass 1 is judged against the state on entry (before the pre-solution hook)."""
+    what, entry, min_iter, max_iter, failures = case['what'], case['entry'], case['min_iter'], case['max_iter'], case['failures']
+    script = {'drop-B': [('moved', 3)] * 8, 'add-C': [('conv', 0)] * 8, 'empty': [('moved', 0)] * 8, 'copy-then-drop-B': [('moved', 3)] * 8,
+              'hook-moves-A': [('conv', 1)] + [('conv', 0)] * 7}[what]
+    m = scripted.make_scripted(list(range(3)), {1: script}, hooks_write='check' if what == 'hook-moves-A' else False)
+    m.A = [1.0, 2.0, 3.0]
+    m.B = [-1.0, -2.0, -3.0]
+    k0 = max(1, min_iter)
+    if what == 'drop-B':
+        m.check.remove('B')
+        want = ('.', k0)
+    elif what == 'copy-then-drop-B':
+        other = m.copy()
+        other.check.remove('B')   # the copy's list is its own: the original still checks B, which keeps moving
+        want = ('F', max_iter)
+    elif what == 'add-C':
+        m.check.append('C')
+        want = ('F', max_iter)
+    elif what == 'empty':
+        del m.check[:]
+        want = ('.', k0)
+    else:
+        want = ('.', max(2, min_iter)) if max_iter >= 2 else ('F', max_iter)
+    kw = dict(min_iter=min_iter, max_iter=max_iter, tol=scripted.TOL, failures=failures)
+    if entry == 'solve_t':
+        r = refsolve.call_outcome(m.solve_t, 1, **kw)
+    elif entry == 'solve_period':
+        r = refsolve.call_outcome(m.solve_period, 1, **kw)
+    else:
+        r = refsolve.call_outcome(m.solve, start=1, end=1, **kw)
+    got = (str(m.status[1]), int(m.iterations[1]))
+    out = []
+    if got != want:
+        out.append(('check-list:%s' % what, want, got, 'convergence was not judged on the instance\'s check list / against the state on entry'))
+    exp_res = 'True' if want[0] == '.' else ('NonConvergenceError' if failures == 'raise' else 'False')
+    res = r[0] if r[0] != 'value' else str(bool(r[2][2][0]))
+    if not out and res != exp_res:
+        out.append(('check-list:result:%s' % what, exp_res, res, 'result / exception does not match the recorded status'))
+    return out
+
+
+def run_checklists(acc, tier):
+    for what in ('drop-B', 'add-C', 'empty', 'copy-then-drop-B', 'hook-moves-A'):
+        for entry in ('solve_t', 'solve_period', 'solve'):
+            for max_iter in (1, 2, 4):
+                for min_iter in range(0, max_iter + 1):
+                    for failures in ('raise', 'ignore'):
+                        case = dict(kind='check-list', what=what, entry=entry, min_iter=min_iter, max_iter=max_iter, failures=failures)
+                        acc.evaluations += 1
+                        acc.nontrivial += 1
+                        for key, exp, obs, w in run_checklist_case(case):
+                            acc.violation(key, case, exp, obs, w)
+
+
 def run_block(block, tier, seed):
     acc = Acc()
-    if block['kind'] == 'traces':
+    if block['kind'] == 'check-lists':
+        run_checklists(acc, tier)
+    elif block['kind'] == 'traces':
         run_traces(block, tier, acc)
     elif block['kind'] == 'offsets':
         run_offsets(acc, tier)
@@ -478,6 +553,8 @@ def run_one(case):
         return run_cat_case(case)[0]
     if kind == 'period':
         return run_period_case(case)
+    if kind == 'check-list':
+        return run_checklist_case(case)
     raise ValueError(kind)
 
 
